@@ -96,7 +96,10 @@ def isValidInterpolateEdge (s : Sc) (node : Leaf) (fwd : Bool) : Bool :=
   | some y =>
     if s.kind == Kind.log then
       match (if fwd then s.nodes.getLast? else s.nodes.head?) with
-      | none => isclose (if fwd then s.lBegin else s.lEnd) y
+      | none =>
+        -- forward also: the first node of an interpolation written without its first value is one step in
+        isclose (if fwd then s.lBegin else s.lEnd) y ||
+          (fwd && powClose y (s.lN + 1) (s.lBegin ^ (s.lN + 1) * (s.lEnd / s.lBegin)))
       | some e =>
         match e.val with
         | none => false
@@ -106,7 +109,7 @@ def isValidInterpolateEdge (s : Sc) (node : Leaf) (fwd : Bool) : Bool :=
           powClose y n (ev ^ n * ratio)
     else
       match (if fwd then s.nodes.getLast? else s.nodes.head?) with
-      | none => isclose (if fwd then s.sBegin else s.sEnd) y
+      | none => isclose (if fwd then s.sBegin else s.sEnd) y || (fwd && isclose (s.sBegin + s.sSpacing) y)
       | some e =>
         match e.val with
         | none => false
@@ -127,7 +130,7 @@ def canConsumeNode (s : Sc) (node : Leaf) (fwd : Bool) (lastEdgeShortcut : Bool)
     if node.val.isNone then (false, s)
     else match s.nodes with
       | [] => (true, { s with full := lastEdgeShortcut })
-      | [_] => (!s.full, s)
+      | [_] => (!s.full && fwd, s)  -- it only grows at its end
       | _ => (false, s)
 
 /-- `ShortcutNode.consume_edge_node` -/
